@@ -184,7 +184,9 @@ fn alu(r: &mut Rng, out: &mut Vec<String>) {
     let d = r.below(6);
     let s = r.below(6);
     let t = r.below(6);
-    out.push(match r.below(6) {
+    out.push(match r.below(7) {
+        // an executed no-op (BR with no condition bits) still is one instruction
+        6 => (*r.pick(&["NOP", "NOP", "NOP #3"])).to_string(),
         0 => format!("ADD R{d}, R{s}, #{}", r.range(-16, 15)),
         1 => format!("ADD R{d}, R{s}, R{t}"),
         2 => format!("AND R{d}, R{s}, R{t}"),
